@@ -6,6 +6,7 @@ import Driver.C13
 import Driver.C14
 import Driver.C15
 import Driver.C16
+import Driver.C19
 import Driver.C20
 open Sx
 namespace Driver
@@ -22,6 +23,7 @@ def dispatch (op : String) (args : List Sx) : Option Sx :=
   else if op.startsWith "c14." then C14.handle op args
   else if op.startsWith "c15." then C15.handle op args
   else if op.startsWith "c16." then C16.handle op args
+  else if op.startsWith "c19." then C19.handle op args
   else if op.startsWith "c20." then C20.handle op args
   else none
 
